@@ -380,6 +380,44 @@ v("C19", "short-lines-skipped", ANNB, "		for _, line := range lines {\n			if fir
 v("C03", "pretrack-adds-only", ING, "	for _, ing := range append(c.changed.IngressesAdd, c.changed.IngressesUpd...) {", "	for _, ing := range c.changed.IngressesAdd {", "C03.pretrack-covers")
 v("C11", "response-table-narrowed", DYN, 'return response == "" || strings.HasPrefix(response, "IP changed from ") || strings.HasPrefix(response, "no need to change ")', 'return response == "" || strings.HasPrefix(response, "IP changed from ")', "C11.responses")
 
+# ---- generated tables, template and script rules (rounds 5-6)
+LUA = "rootfs/etc/lua/auth-request.lua"
+RSH = "rootfs/haproxy-reload.sh"
+v("C16", "template-weight-only-when-nonzero", TMPL, """        {{- "" }} weight {{ $ep.Weight }}""", """        {{- if $ep.Weight }} weight {{ $ep.Weight }}{{ end }}""", "C16.template-backends")
+v("C03", "template-weight-only-when-nonzero", TMPL, """        {{- "" }} weight {{ $ep.Weight }}""", """        {{- if $ep.Weight }} weight {{ $ep.Weight }}{{ end }}""", "C03.server-line")
+v("C18", "lua-redirects-count-as-success", LUA, "local response_ok = 200 <= response.status_code and response.status_code < 300", "local response_ok = 200 <= response.status_code and response.status_code < 400", "C18.lua-verdict")
+v("C12", "reload-script-masks-failure", RSH, """    haproxy -f "$PARAM_CFG" -p "$HAPROXY_PID" -D -sf $OLD_PID\nfi""", """    haproxy -f "$PARAM_CFG" -p "$HAPROXY_PID" -D -sf $OLD_PID || true\nfi""", "C12.reload-script")
+v("C10", "skip-backendref-without-ready-endpoints", GW, "		weight := 1\n		if back.Weight != nil {", "		if len(epready) == 0 {\n			continue\n		}\n		weight := 1\n		if back.Weight != nil {", "C10.skips-gateway")
+v("C09", "service-read-with-its-own-namespace", ING, "	svc, err := c.cache.GetService(source.Namespace, fullSvcName)\n	hostname := pathLink.Hostname()", "	svc, err := c.cache.GetService(strings.Split(fullSvcName, \"/\")[0], fullSvcName)\n	hostname := pathLink.Hostname()", "C09.wiring")
+v("C11", "annotations-backends-before-hosts", ING, """	c.fullSyncTCP()
+	for _, host := range c.haproxy.Hosts().ItemsAdd() {
+		if ann, found := c.hostAnnotations[host]; found {
+			c.updater.UpdateHostConfig(host, ann)
+		}
+	}
+	for _, backend := range c.haproxy.Backends().ItemsAdd() {
+		if ann, found := c.backendAnnotations[backend]; found {
+			c.updater.UpdateBackendConfig(backend, ann)
+		}
+	}
+""", """	c.fullSyncTCP()
+	for _, backend := range c.haproxy.Backends().ItemsAdd() {
+		if ann, found := c.backendAnnotations[backend]; found {
+			c.updater.UpdateBackendConfig(backend, ann)
+		}
+	}
+	for _, host := range c.haproxy.Hosts().ItemsAdd() {
+		if ann, found := c.hostAnnotations[host]; found {
+			c.updater.UpdateHostConfig(host, ann)
+		}
+	}
+""", "C11.skips-converter")
+v("C17", "first-certificate-of-bundle-lost", "pkg/controller/services/ssl.go", "		if x509crt == nil {\n			x509crt = crt\n		}\n", "		x509crt = crt\n", "C17.skips-cache")
+v("C13", "queue-item-with-reason", "pkg/controller/reconciler/reconciler.go", "	fullsync bool\n}", "	fullsync bool\n	leader   bool\n}", "C13.item-identity")
+v("C14", "configmap-handler-captures-accumulator", WATCH, "func (w *watchers) handlersCore() []*hdlr {\n	cmChange := func(o client.Object) {", "func (w *watchers) handlersCore() []*hdlr {\n	ch := w.ch\n	cmChange := func(o client.Object) {", "C14.accumulator-fresh")
+V[-1]["edits"].append(dict(file=WATCH, old="			w.ch.GlobalConfigMapDataNew = cm.Data", new="			ch.GlobalConfigMapDataNew = cm.Data"))
+V[-1]["edits"].append(dict(file=WATCH, old="			w.ch.TCPConfigMapDataNew = cm.Data", new="			ch.TCPConfigMapDataNew = cm.Data"))
+
 for x in V:
     d = os.path.join(ROOT, "variants", x["property"])
     os.makedirs(d, exist_ok=True)
